@@ -66,7 +66,7 @@ def same(a, b):
 
 
 class SegEval:
-    def __init__(self, ctx, rule, construct, seg_kinds, decide, alg=None, point_lists=(), point_calls=()):
+    def __init__(self, ctx, rule, construct, seg_kinds, decide, alg=None, point_lists=(), point_calls=(), value_hook=None, on_call=None):
         self.ctx, self.rule, self.construct = ctx, rule, construct
         self.kinds = set(seg_kinds)
         self.decide = decide  # decide(test) -> True / False / None
@@ -74,6 +74,8 @@ class SegEval:
         self.vals = {}  # local name -> sequence (list) / Seg / point / ("elem", base, idx) / ("builder", [..])
         self.point_lists = set(point_lists)  # expressions (unparsed attr chains or local names) holding a list of points
         self.point_calls = set(point_calls)  # method names returning a point: self.m(t) -> ("call", m, RF)
+        self.value_hook = value_hook  # value_hook(self, node) -> abstract value or None (domain-specific expressions)
+        self.on_call = on_call  # on_call(self, call) -> True when the call statement was interpreted
 
     # ----------------------------------------------------------------- values
     def err(self, what, node=None):
@@ -94,6 +96,10 @@ class SegEval:
         """point-like value or None"""
         if isinstance(node, ast.Constant) and node.value is None:
             return None
+        if self.value_hook is not None:
+            hv = self.value_hook(self, node)
+            if hv is not None:
+                return hv
         if isinstance(node, ast.Name) and node.id in self.vals and not isinstance(self.vals[node.id], (Seg,)):
             v = self.vals[node.id]
             if isinstance(v, (list, tuple)) and not (isinstance(v, tuple) and v and v[0] in ("builder", "plist")):
@@ -127,6 +133,10 @@ class SegEval:
     def operand(self, node):
         if isinstance(node, ast.Constant) and node.value is None:
             return None
+        if self.value_hook is not None:
+            hv = self.value_hook(self, node)
+            if hv is not None:
+                return hv
         if isinstance(node, ast.Name) and isinstance(self.vals.get(node.id), (list, tuple)) and not (isinstance(self.vals[node.id], tuple) and self.vals[node.id][0] in ("builder", "plist")):
             return self.vals[node.id]
         try:
@@ -207,6 +217,21 @@ class SegEval:
         return ("fall", None)
 
     def assign(self, t, v, s):
+        while isinstance(v, ast.IfExp):
+            d = self.decide(v.test)
+            if d is None:
+                self.err("undecided test `%s`" % ast.unparse(v.test)[:80], s)
+            v = v.body if d else v.orelse
+        if isinstance(t, ast.Name) and self.value_hook is not None:
+            hv = self.value_hook(self, v)
+            if hv is not None:
+                self.vals[t.id] = hv
+                self.alg.env.pop(t.id, None)
+                return
+        if isinstance(t, ast.Name) and isinstance(v, ast.Constant) and v.value is None:
+            self.vals[t.id] = ("none",)
+            self.alg.env.pop(t.id, None)
+            return
         if isinstance(t, ast.Name):
             self.vals.pop(t.id, None)
             sv = self.seq_value(v)
@@ -272,6 +297,8 @@ class SegEval:
             self.alg.env[s.target.id] = atom("?%s@%d" % (s.target.id, s.lineno))
 
     def call_stmt(self, c, s):
+        if self.on_call is not None and self.on_call(self, c):
+            return
         if isinstance(c.func, ast.Attribute) and isinstance(c.func.value, ast.Name) and c.func.value.id in self.vals:
             cur = self.vals[c.func.value.id]
             m = c.func.attr
